@@ -491,6 +491,20 @@ def parse_mir(path, want=None):
     i, n = 0, len(lines)
     while i < n:
         line = lines[i]
+        pm = re.match(r"^const (.*::promoted\[\d+\]): (.*) = \{$", line) if line.startswith("const ") else None
+        if pm:
+            # a promoted constant (`&CONST` lifted by rustc): a parameterless body
+            cur = MirFn(pm.group(1), [], pm.group(2), i + 1)
+            cur.is_promoted = True
+            fns.append(cur)
+            j = i + 1
+            while j < n and lines[j] != "}":
+                j += 1
+            body = lines[i:j + 1]
+            cur.text_hash = hashlib.sha256("\n".join(body).encode()).hexdigest()[:16]
+            cur._body = body
+            i = j + 1
+            continue
         if line.startswith("fn ") and line.endswith("{"):
             h = parse_header(line)
             if h:
